@@ -100,10 +100,39 @@ class CurGen:
             self.gen_level(g, path + [g.name])
         return k
 
+    def gen_ranges(self, base):
+        """One function per (level, group member): iterate a cursor range / subrange of that group, recording the
+        address of every entry and dumping it through the cursor with the codec driver's dumper."""
+        tags = {}
+        for msg in self.s.messages:
+            for path, lv in msg.walk_levels():
+                tags[id(lv)] = "::%s::schema::messages::%s%s" % (self.pkg, msg.name, "".join("::" + x for x in path))
+        for level, path in self.levels:
+            k = self.lid(level)
+            for gi, g in enumerate(level.groups):
+                body = ("g_addrs += std::to_string(reinterpret_cast<const unsigned char*>(sbepp::addressof(e)) - g_base) + \",\"; "
+                        "dL%d_cur<%s>(vrt::idx(\"e\", i), e, c, false); ++i;" % (base.lid(g), tags[id(g)]))
+                self.code.append(
+                    "template<typename V>\nstatic void rng_L%d_%d(V l, int form, unsigned long long pos, unsigned long long count, sbepp::cursor<char>& c)\n{\n"
+                    "    auto g = l.%s();\n    typedef typename decltype(g)::size_type ST;\n    std::size_t i = 0;\n    (void)pos; (void)count;\n"
+                    "    switch(form)\n    {\n"
+                    "    case 0: for(const auto e : g.cursor_range(c)) { %s } break;\n"
+                    "    case 1: for(const auto e : g.cursor_subrange(c, static_cast<ST>(pos))) { %s } break;\n"
+                    "    case 2: for(const auto e : g.cursor_subrange(c, static_cast<ST>(pos), static_cast<ST>(count))) { %s } break;\n"
+                    "    default: { auto it = g.cursor_begin(c); const auto end = g.cursor_end(c); for(; it != end; ++it) { const auto e = *it; %s } } break;\n"
+                    "    }\n    g_count = i;\n}\n" % (k, gi, g.name, body, body, body, body))
+
     def generate(self):
         disp = []
+        rdisp = []
+        base = G.Gen(self.s)
+        for mi, msg in enumerate(self.s.messages):
+            base.gen_message(mi, msg)
+        self.code += base.code
+        self.code.append("static std::string g_addrs;\nstatic std::size_t g_count;\n")
         for mi, msg in enumerate(self.s.messages):
             self.gen_level(msg, [])
+        self.gen_ranges(base)
         # dispatch: (message index, level id) -> navigation
         for mi, msg in enumerate(self.s.messages):
             view = "::%s::messages::%s<char>" % (self.pkg, msg.name)
@@ -116,9 +145,15 @@ class CurGen:
                     cur = "l%d" % (d + 1)
                 disp.append("    if(mi == %d && lid == %d)\n    {\n        %s m{reinterpret_cast<char*>(p), n};\n%s        act_L%d(%s, member, w, set, c);\n        return;\n    }"
                             % (mi, k, view, nav, k, cur))
+                for gi, g in enumerate(lv.groups):
+                    rdisp.append("    if(mi == %d && lid == %d && gi == %d)\n    {\n        %s m{reinterpret_cast<char*>(p), n};\n%s        rng_L%d_%d(%s, form, pos, count, c);\n        return;\n    }"
+                                 % (mi, k, gi, view, nav, k, gi, cur))
         src = (G.HEAD % dict(pkg=self.pkg)) + HELPERS + "\n".join(self.code)
         src += ("\nstatic void dispatch(int mi, int lid, unsigned char* p, std::size_t n, const std::vector<unsigned long long>& ix, int member, int w, bool set, sbepp::cursor<char>& c)\n{\n"
                 "    (void)ix;\n%s\n}\n" % "\n".join(disp))
+        src += ("\nstatic void rdispatch(int mi, int lid, unsigned char* p, std::size_t n, const std::vector<unsigned long long>& ix, int gi, int form, "
+                "unsigned long long pos, unsigned long long count, sbepp::cursor<char>& c)\n{\n"
+                "    (void)ix; (void)p; (void)n; (void)gi; (void)form; (void)pos; (void)count; (void)c; (void)mi; (void)lid;\n%s\n}\n" % "\n".join(rdisp))
         src += MAIN
         return src
 
@@ -139,6 +174,45 @@ int main()
         if(cmd == "IMG")
         {
             img = t.bytes();
+            continue;
+        }
+        if(cmd == "RNG")
+        {
+            // RNG id mi lid nix ix... cursor_off group_index form pos count
+            const std::string id = t.next();
+            const int mi = static_cast<int>(t.u64());
+            const int lid = static_cast<int>(t.u64());
+            const unsigned long long nix = t.u64();
+            std::vector<unsigned long long> ix;
+            for(unsigned long long i = 0; i < nix; i++)
+                ix.push_back(t.u64());
+            const long cur_off = std::strtol(t.next().c_str(), nullptr, 10);
+            const int gi = static_cast<int>(t.u64());
+            const int form = static_cast<int>(t.u64());
+            const unsigned long long pos = t.u64();
+            const unsigned long long count = t.u64();
+            work = img;
+            work.resize(img.size() + 64, 0xEE);
+            unsigned char* p = work.data();
+            g_base = p;
+            sbepp::cursor<char> c;
+            c.pointer() = reinterpret_cast<char*>(p) + cur_off;
+            g_addrs.clear();
+            g_count = 0;
+            vrt::out().clear();
+            const bool as = VRT_TRAPPED(rdispatch(mi, lid, p, img.size(), ix, gi, form, pos, count, c));
+            std::string dump = vrt::out();
+            vrt::out().clear();
+            for(std::size_t i = 0; i < dump.size(); i++)
+                if(dump[i] == '\n')
+                    dump[i] = '|';
+            bool changed = false;
+            for(std::size_t i = 0; i < work.size(); i++)
+                changed = changed || work[i] != (i < img.size() ? img[i] : 0xEE);
+            std::printf("G %s %d %zu %ld %s %s %s #%s\n", id.c_str(), int(as), g_count,
+                        static_cast<long>(reinterpret_cast<unsigned char*>(c.pointer()) - p), g_addrs.empty() ? "-" : g_addrs.c_str(),
+                        changed ? "changed" : "unchanged", as ? vrt::astate().func : "-", dump.c_str());
+            std::fflush(stdout);
             continue;
         }
         // ACT id mi lid nix ix... cursor_off member wrapper set field_off field_size
